@@ -103,6 +103,22 @@ func main() {
 	if err := ex.WriteIfChanged(args.Out, "C14Wrappers.lean", sb.String()); err != nil {
 		die(err)
 	}
+	// ---- float → int conversions of the decoders
+	nf := &numFacts{}
+	analyseNumbers(phpPkg, nf)
+	analyseNumbers(jsonPkg, nf)
+	sb.Reset()
+	sb.WriteString("import Model.NumGuard\n")
+	sb.WriteString("/-! C14: every conversion of a float64 to an integer type in the decoders (std/php/json_decode.go, unserialize.go, …,\n")
+	sb.WriteString("std/serializer/json) with the range guard and the integrality test in force; constants as the float64 they are\n")
+	sb.WriteString("converted to for the comparison. -/\n")
+	sb.WriteString("namespace Generated.C14Numbers\nopen Model.NumGuard\n\n")
+	sb.WriteString(nf.lean())
+	sb.WriteString("def shapeNotes : List String := " + leanList(quoteAll(nf.notes.list), "  ") + "\n\n")
+	sb.WriteString("end Generated.C14Numbers\n")
+	if err := ex.WriteIfChanged(args.Out, "C14Numbers.lean", sb.String()); err != nil {
+		die(err)
+	}
 	fmt.Printf("c14: %d depth graph(s), %d file(s) with uncounted recursion, %d consume site(s), %d index site(s), %d wrapper(s); notes: %d\n",
 		len(rf.graphs), len(rf.unlimitedFiles), len(wf.consume), len(sf.indexSites), len(xf.wrappers),
 		len(rf.notes.list)+len(wf.notes.list)+len(sf.notes.list)+len(xf.notes.list))
